@@ -70,10 +70,13 @@ def shard(col, shard_i, ngrammars, ninputs, full):
             hand = rng.choice(['none', 'override-recursive', 'lone-call'])
             rules = [('start', [], ('choice', [('seq', [('call', 'r'), T1]), ('call', 's'), ('seq', [('call', 'r'), T2]),
                                               ('seq', [('tok', 'a'), 'void', ('call', 'Tk'), ('tok', 'x')]), ('seq', [('tok', 'a'), ('call', 'Tk'), ('tok', 'y')]),
+                                              ('seq', [('call', 'lst'), ('group', ('seq', [('tok', '!'), ('tok', '!')])), ('tok', 'x')]),
+                                              ('seq', [('call', 'lst'), ('opt', ('seq', [('tok', '!'), ('tok', '!')])), ('tok', 'y')]),
                                               ('seq', [('call', 'h'), ('tok', '!')]),
                                               ('seq', [('tok', '('), ('named', False, 'inner', ('call', 'h')), ('tok', ')'), ('tok', '?')]),
                                               ('seq', [('call', 'h'), ('tok', '?')]), ('call', 'h')])),
-                     ('r', [], ('seq', [P, A])), ('s', [], ('seq', [P, B])), ('Tk', [], ('pat', r'[b-z]+'))]
+                     ('r', [], ('seq', [P, A])), ('s', [], ('seq', [P, B])), ('Tk', [], ('pat', r'[b-z]+')),
+                     ('lst', [], ('seq', [('over', True, ('tok', 'm')), ('over', True, ('tok', 'n'))]))]
             if hand == 'override-recursive':
                 rules.append(('h', [], ('choice', [('seq', [('tok', '('), ('over', False, ('call', 'h')), ('tok', ')')]), ('named', False, 'v', ('pat', r'\w+'))])))
             elif hand == 'lone-call':
@@ -81,7 +84,7 @@ def shard(col, shard_i, ngrammars, ninputs, full):
             else:
                 rules.append(('h', [], ('named', False, 'v', ('pat', r'\w+'))))
             g = {'rules': rules, 'directives': {}, 'keywords': []}
-            texts = ['a q y', 'a q x', 'aq y', 'a  q y', '(]', '( ]', '(b', '(b x', '(b z', 'a', 'a b', 'a b 1 z', '(x)', '(x)?', '((x))?', 'x?', 'x', '(', '()', 'a c', '(b 1 y'][:max(ninputs, 16)]
+            texts = ['m n ! ! y', 'm n ! ! x', 'm n y', 'a q y', 'a q x', 'aq y', 'a  q y', '(]', '( ]', '(b', '(b x', '(b z', 'a', 'a b', 'a b 1 z', '(x)', '(x)?', '((x))?', 'x?', 'x', '(', '()', 'a c', '(b 1 y'][:max(ninputs, 19)]
             col.count('grammar.retry-and-handing-on')
             lrec = False
         elif lrec:
@@ -104,6 +107,11 @@ def shard(col, shard_i, ngrammars, ninputs, full):
             g = dict(g)
             g['rules'] = [(n, (d + ['nomemo']) if (i > 0 and rng.random() < 0.4 and 'nomemo' not in d) else d, e) for i, (n, d, e) in enumerate(g['rules'])]
             col.count('grammar.with-nomemo')
+        if rng.random() < 0.3:
+            # @nostak (the rule is kept off the trace stack): no effect on results, whatever the memo settings
+            g = dict(g)
+            g['rules'] = [(n, (d + ['nostak']) if (i > 0 and rng.random() < 0.5 and 'nostak' not in d) else d, e) for i, (n, d, e) in enumerate(g['rules'])]
+            col.count('grammar.with-nostak')
         semspec = ('none', {})
         if gi % 3 == 1 or gi % 6 == 3:
             from props.c06 import targeted_semspec
